@@ -27,6 +27,8 @@ class ExecLog:
         self.queries = []  # (field_key, nbh, H, excess, max_eft, min_eft)
         self.gfunc_calls = []  # (where, nbh, tuple(h_values), m_flow_borehole)
         self.ghe_inits = []  # (nbh, V_flow_system, m_flow_borehole)
+        self.load_years = []  # load_years keyword every GHE was built with
+        self.gheights = []  # (heights the long-time g-function was computed for, height simulated)
 
 
 def field_key(coords) -> str:
@@ -173,6 +175,7 @@ def install():
             super().__init__(*a, **kw)  # the REAL GHE.__init__ / BaseGHE.__init__ run on the stubs above
             if LOG is not None:
                 LOG.ghe_inits.append((self.nbh, float(self.V_flow_system), float(self.m_flow_borehole)))
+                LOG.load_years.append(list(kw.get("load_years") or []) if "load_years" in kw else None)
 
         def simulate(self, method):
             if WORLD is None:
@@ -182,6 +185,7 @@ def install():
             mx, mn = WORLD.answer(coords, h)
             e = max(mx - WORLD.max_allow, WORLD.min_allow - mn)
             LOG.queries.append((field_key(coords), len(coords), h, e, mx, mn, self.fieldSpecifier))
+            LOG.gheights.append((tuple(float(k) for k in getattr(self.gFunction, "g_lts", {})), h))
             # same bookkeeping as the real simulate(): results of the most recent call stay on the object
             self.times = [1.0, 2.0]
             self.loading = [0.0, 0.0]
